@@ -174,10 +174,12 @@ class LoopSpec:
     state(k, pre, it) -> {name: value} after k completed iterations; `pre` is the environment at
     loop entry; `it` gives access to the iterable (it.elem(j), it.count)."""
 
-    def __init__(self, state, ghosts=None, after=None, after_body=None):
+    def __init__(self, state, ghosts=None, after=None, after_body=None, dead=()):
         self.state = state
         self.after = after
         self.after_body = after_body      # proof steps on the preservation path, between the body and the comparison
+        self.dead = tuple(dead)           # loop-carried arrays the invariant does not describe: havoc'ed at the start of the
+        #                                   generic iteration (unspecified contents), unreadable after the loop
 
 
 class IterView:
@@ -648,6 +650,11 @@ class Frame:
             N.ground(k)
             stk = spec.state(k, pre, itv)
             self._install(stk, names, mutated, first_iter=k)
+            for dn in spec.dead:
+                v0 = pre.get(dn)
+                if not isinstance(v0, Arr):
+                    raise Unsupported(f"dead loop variable '{dn}' is not an array")
+                self.env[dn] = N.empty_like(v0)
             self.assign(s.target, elem(k))
             try:
                 self.exec_block(s.body)
@@ -668,6 +675,8 @@ class Frame:
         # ---- use ---------------------------------------------------------------------
         stn = spec.state(n, pre, itv)
         self._install(stn, names, mutated, first_iter=None)
+        for dn in spec.dead:
+            self.env[dn] = Poison(f"'{dn}' is declared dead by the loop specification")
         if spec.after is not None:
             spec.after(self, n, pre, itv)
 
